@@ -35,7 +35,14 @@ structure Table where
     concurrent use (sync.Pool). Anything else held in a package-level variable — a buffer, a reader, a cache — is state
     that every goroutine using the package shares behind the API. -/
 def allowedMakers : List String :=
-  ["call errors.New", "call fmt.Errorf", "lit sync.Pool", "lit WarcVersion", "lit []byte", "lit []string", "lit []fieldDef", "call make"]
+  ["call errors.New", "call fmt.Errorf", "lit sync.Pool", "lit WarcVersion", "call make"]
+
+/-- a maker is allowed when it is in the list, or a slice or map literal of any element type: a table. Tables are read-only
+    after package initialisation because no function assigns to them or into them, sorts, clears or deletes from them
+    (`pkgVarWrites`, which must name `init` only). A struct literal of any other type stays refused: it may be a buffer,
+    a reader or a cache. -/
+def allowedMaker (m : String) : Bool :=
+  allowedMakers.contains m || "lit []".toList.isPrefixOf m.toList || "lit map[".toList.isPrefixOf m.toList
 
 /-- one round: methods reached from an unlocked method through a call that does not enter a lock holder -/
 def expand (t : Table) (u : List String) : List String :=
@@ -63,7 +70,7 @@ def RaceFree (t : Table) : Bool :=
   t.generatorFieldWrites.isEmpty &&
   t.writerStructWrites.isEmpty &&
   t.poolPuts.all (fun p => p.2.2 == "niled") &&
-  t.pkgObjects.all (fun o => allowedMakers.contains o.2.2) &&
+  t.pkgObjects.all (fun o => allowedMaker o.2.2) &&
   -- a file reader keeps nothing between calls: the only field its methods assign is the pooled input buffer, in Close.
   -- In particular Next does not keep the record it returns (which belongs to whoever received it)
   t.readerFieldWrites.all (fun w => w == ("bufferedReader", "Close")) &&
